@@ -1,5 +1,6 @@
 (** Pins/C09.v — pinned statements of the C09 theorems (a weakened statement fails this file). *)
-From PdfV Require Import Base.Prelude Storage.Prim Storage.Model Storage.Proofs Properties.C09.
+From PdfV Require Import Base.Prelude Gen.Generated Storage.Prim Storage.Model Storage.Proofs Properties.C09.
+From PdfV Require Storage.Syntax Syn.Serialize Syn.Parser Syn.Spells Syn.SerProofs.
 
 Check (C09_read_your_writes : forall parse_obj member,
   (forall s old v s' r, update s old v = Ok (s', r) ->
@@ -42,18 +43,33 @@ Check (C09_save_layout : forall ser s tr s' tr',
   (exists xpos aw bw data xd xs,
      write_stream (refs s') (lenN (refs s')) = Ok (aw, bw, data) /\
      nthN (refs s') (lenN (refs s1)) = Some (XRaw xpos 0) /\
-     ser (PStream xd (SPending data)) = Ok xs /\
+     ser (PStreamData xd data) = Ok xs /\
      (exists pre, backend s' = pre ++ obj_header (lenN (refs s1)) 0 ++ xs ++ kw_endobj_nl ++ startxref_tail xpos /\
                   lenN pre = start s + xpos)) /\
   start s' = start s /\ cache s' = []).
 
-Check (C09_reload : forall ser parse_obj member s tr s' tr' s3,
-  (forall pre id g p body post, ser p = Ok body ->
-     parse_obj (pre ++ obj_bytes id g body ++ post) (lenN pre) = Ok (id, g, p)) ->
-  wf_st s -> save ser s tr = Ok (s', tr', None) ->
+Check (C09_parse_ser : forall pre id g v post,
+  SerProofs.storable v -> Spells.vdepth v <= MAX_DEPTH -> id < 2 ^ 64 -> g < 2 ^ 64 ->
+  forall body, Serialize.ser v = Ok body ->
+    Syntax.parse_obj (pre ++ obj_bytes id g body ++ post) (lenN pre) = Ok (id, g, v)).
+
+Check (C09_reload : forall member s tr s' tr' s3,
+  wf_st s -> save Serialize.ser s tr = Ok (s', tr', None) ->
   changes s3 = [] -> backend s3 = backend s' -> start s3 = start s ->
   (forall i, i < lenN (refs s') -> nthN (refs s3) i = nthN (refs s') i) ->
-  forall id p g g', clookup (changes (save_pre s tr)) id = Some (p, g) -> resolve parse_obj member s3 (id, g') = Ok p).
+  forall id p g g', clookup (changes (save_pre s tr)) id = Some (p, g) ->
+    SerProofs.storable p -> Spells.vdepth p <= MAX_DEPTH -> id < 2 ^ 64 -> g < 2 ^ 64 ->
+    resolve Syntax.parse_obj member s3 (id, g') = Ok p).
+
+Check (C09_reload_stream : forall member s tr s' tr' s3,
+  wf_st s -> save Serialize.ser s tr = Ok (s', tr', None) ->
+  changes s3 = [] -> backend s3 = backend s' -> start s3 = start s ->
+  (forall i, i < lenN (refs s') -> nthN (refs s3) i = nthN (refs s') i) ->
+  forall id d data g g', clookup (changes (save_pre s tr)) id = Some (PStreamData d data, g) ->
+    SerProofs.storable (PDict d) -> Spells.vdepth (PDict d) <= MAX_DEPTH ->
+    dict_get Parser.key_Length d = Some (PInt (Z.of_N (lenN data))) -> id < 2 ^ 64 -> g < 2 ^ 64 ->
+    exists st, resolve Syntax.parse_obj member s3 (id, g') = Ok (PStream d id g st (lenN data)) /\
+               raw_data (backend s3) (PStream d id g st (lenN data)) = Some data).
 
 Check (C09_reload_untouched : forall ser parse_obj member s tr s' tr' s3,
   (forall b ext pos v, parse_obj b pos = Ok v -> parse_obj (b ++ ext) pos = Ok v) ->
@@ -82,3 +98,15 @@ Check (C09_wf_preserved : forall s,
   (forall old v s' r, update s old v = Ok (s', r) -> wf_st s')).
 
 Check (C09_container_update_refuted : ~ C09_full_statement).
+
+Check (C09_locate_xref : forall pre xpos, locate_xref_offset (pre ++ startxref_tail xpos) = Ok xpos).
+
+Check (C09_load_table : forall read_classic s tr s' tr' c,
+  wf_st s -> save Serialize.ser s tr = Ok (s', tr', None) -> t_prev tr = None ->
+  lenN (refs s) < 999998 -> table_in_range (refs s') ->
+  Forall wf_bytes (t_id tr) -> fst (t_root tr) < 2 ^ 64 -> snd (t_root tr) < 2 ^ 64 ->
+  locate_start_offset (backend s') = Ok (start s) ->
+  exists s3 td, load Syntax.parse_obj read_classic (backend s') c = Ok (s3, td) /\
+    changes s3 = [] /\ backend s3 = backend s' /\ start s3 = start s /\
+    (forall i, i < lenN (refs s') -> nthN (refs s3) i = nthN (refs s') i) /\
+    dget td k_Size = Some (PInt (Z.of_N (lenN (refs s) + 2)))).
